@@ -1,3 +1,4 @@
+#![allow(dead_code)]
 mod absmap;
 mod gradual;
 mod settings;
@@ -12,6 +13,7 @@ fn main() {
     let rest = &args[2..];
     let code = match args[1].as_str() {
         "gradual-replay" => gradual::main(rest),
+        "gradual-record" => gradual::record_main(rest),
         "concretize" => {
             // concretize <mode> <profile> <objs-json>
             let objs: Vec<absmap::AbsObj> = serde_json::from_str(&rest[2]).expect("objs json");
